@@ -295,15 +295,16 @@ pub fn exec_shared(state: &St, op: &Sx) -> Option<String> {
         "find" => match state.find::<T>() { Ok(r) => depth_of(state, r as *const Rg), Err(e) => err_s(&e) },
         "get" => or_panic(catch(|| val(state.get_value::<T>()))),
         "tryget" => res(state.try_get_value::<T>()),
-        "set" => opt(state.set_value::<T>(n(a, 1))),
+        // fallible accessor: a panic is an outcome of its own (the property allows panics only from the panicking accessors)
+        "set" => or_panic(catch(|| opt(state.set_value::<T>(n(a, 1))))),
         "req" => match state.requirements().require::<(), T>() { Ok(()) => "ok".into(), Err(e) => err_s(&e) },
         // value access while a guard on the same type is alive
         "gset" => match state.try_borrow::<T>() {
-            Ok(g) => { let o = opt(state.set_value::<T>(n(a, 1))); drop(g); o }
+            Ok(g) => { let o = or_panic(catch(|| opt(state.set_value::<T>(n(a, 1))))); drop(g); o }
             Err(e) => err_s(&e),
         },
         "gget" => match state.try_borrow_mut::<T>() {
-            Ok(g) => { let o = res(state.try_get_value::<T>()); drop(g); o }
+            Ok(g) => { let o = or_panic(catch(|| res(state.try_get_value::<T>()))); drop(g); o }
             Err(e) => err_s(&e),
         },
         _ => unreachable!(),
